@@ -781,3 +781,50 @@ Proof.
             [destruct more; cbn [fst ev_background_file set_ev_background_file]; rewrite ?Eb; reflexivity
             |cbn [fst]; rewrite Eb; reflexivity]).
 Qed.
+
+(* ---------- the "first colon" clause is false of the code (D1) ---------- *)
+
+Lemma metadata_first_colon_refuted :
+  exists st line, extra_colon line /\ parse_metadata st line <> spec_metadata st line.
+Proof.
+  exists metadata_default, (lit "Title:Re:Zero"). split; [unfold extra_colon; cbn; lia|].
+  intros H. apply (f_equal (fun r => dump_metadata (fst r))) in H. vm_compute in H. discriminate.
+Qed.
+
+Lemma general_first_colon_refuted :
+  exists st line, extra_colon (trim_comment line) /\ parse_general st line <> spec_general st line.
+Proof.
+  exists general_default, (lit "AudioFilename:a:b.mp3"). split; [unfold extra_colon; vm_compute; lia|].
+  intros H. apply (f_equal (fun r => dump_general (fst r))) in H. vm_compute in H. discriminate.
+Qed.
+
+Lemma difficulty_first_colon_refuted :
+  exists st line, extra_colon (trim_comment line) /\ parse_difficulty st line <> spec_difficulty st line.
+Proof.
+  exists difficulty_default, (lit "CircleSize:4:5"). split; [unfold extra_colon; vm_compute; lia|].
+  intros H. apply (f_equal (fun r => dump_difficulty (fst r))) in H. vm_compute in H. discriminate.
+Qed.
+
+Lemma editor_first_colon_refuted :
+  exists st line, extra_colon (trim_comment line) /\ parse_editor st line <> spec_editor st line.
+Proof.
+  exists editor_default, (lit "GridSize:4:5"). split; [unfold extra_colon; vm_compute; lia|].
+  intros H. apply (f_equal (fun r => dump_editor (fst r))) in H. vm_compute in H. discriminate.
+Qed.
+
+Lemma colors_first_colon_refuted :
+  exists st line, extra_colon (trim_comment line) /\ parse_colors st line <> spec_colors st line.
+Proof.
+  exists colors_default, (lit "Combo1:1,2,3:4"). split; [unfold extra_colon; vm_compute; lia|].
+  intros H. apply (f_equal (fun r => dump_colors (fst r))) in H. vm_compute in H. discriminate.
+Qed.
+
+(* D10: a bookmark outside +-(2^31-1) is stored; a padded one is dropped *)
+Lemma bookmarks_limit_refuted :
+  exists line n, In n (ed_bookmarks (fst (parse_editor editor_default line))) /\ n < - max_parse_value.
+Proof.
+  exists (lit "Bookmarks: -2147483648"), (-2147483648). split; [vm_compute; auto|reflexivity].
+Qed.
+Lemma bookmarks_padded_dropped :
+  ed_bookmarks (fst (parse_editor editor_default (lit "Bookmarks: 1, 5,7 ,9"))) = [1; 9].
+Proof. vm_compute. reflexivity. Qed.
